@@ -49,6 +49,8 @@ def shards(tier):
             out.append({"part": "one", "kind": kind, "tier": tier, "n": n - 1, "first": None})
         else:
             out.append({"part": "one", "kind": kind, "tier": tier, "n": n, "first": None})
+    # strings that differ only in a trailing NUL (fixed-width NumPy strings cannot tell them apart)
+    out.append({"part": "one", "kind": "str", "tier": tier, "n": 3, "first": None, "alpha": [None, "a", "a\x00", "b"]})
     for k1 in KINDS:
         for k2 in KINDS:
             out.append({"part": "two", "kinds": [k1, k2], "n": 4 if big else 3})
@@ -195,7 +197,7 @@ def run_shard(shard, rec):
         return
     if shard["part"] == "one":
         kind, tier, n = shard["kind"], shard["tier"], shard["n"]
-        alpha = V.alphabet(kind, tier)
+        alpha = shard.get("alpha") or V.alphabet(kind, tier)
         if shard["first"] is None:
             it = V.seqs(alpha, 0, n)
         else:
@@ -228,4 +230,11 @@ def run_shard(shard, rec):
 
 
 def classify(v):
+    c = v.get("case") or {}
+    cols = c.get("cols") or []
+    if v["op"] == "sort" and v["clause"] == "order" and c.get("keys") == ["k"] and cols and cols[0][1] == "str":
+        toks = cols[0][2]
+        if "a" in toks and "a\x00" in toks and all(t in (None, "a", "a\x00", "b") for t in toks):
+            # 'a' and 'a\x00' tie under the fixed-width cast used for ranking strings
+            return "string-differing-only-in-trailing-NUL"
     return None
